@@ -14,7 +14,7 @@ META = {
     'rule_text': 'rule instances: hemisphere and ellipsoid threading at every call the three routines make (grid2geo, geo2grid, vincdir, '
                  'vincinv, line_sf, rho, nu); the inverse as a composition of opaque call atoms; the direct routine\'s set-up, loop body and '
                  'closing step as compositions; line_sf incl. the cross-zone re-projection and Deakin (2010) eq. 13; rho and nu closed '
-                 'forms; the refinement threshold',
+                 'forms; the refinement threshold; own input tests of vincinv_utm decided over zones 2..59 x neighbour offset -1..1; statelessness with memo-key analysis; angular_typecheck dispatch',
     'explanation': 'Static: call-site binding for the role parameters, and abstract evaluation of the three routines with their callees kept '
                    'as opaque call atoms, compared with reference compositions written in the checker. Decides that the grid routines are '
                    'the stated compositions of the ellipsoidal ones (distance * line scale factor, bearing = azimuth + convergence of each '
